@@ -137,7 +137,7 @@ func (q *Query) EntityAt(index int) Entity {
 // Panics if the entity does not have the given component, or if the component is not a [Relation].
 func (q *Query) Relation(comp ID) Entity {
 	q.checkGet()
-	if q.access.RelationComponent.id != comp.id {
+	if !q.access.HasRelationComponent || q.access.RelationComponent.id != comp.id {
 		panic(fmt.Sprintf("entity has no component %v, or it is not a relation component", q.world.registry.Types[comp.id]))
 	}
 	return q.access.RelationTarget
